@@ -416,3 +416,82 @@ def example_traces(v, names, maxev, tlimit=240):
             import shutil
             shutil.rmtree(work, ignore_errors=True)
     return ntr, nev
+
+
+CFG_FIELDS = ["h", "hmin", "hmax", "rel", "abs", "nsteps", "adaptive", "stepper", "sw1", "sw2", "sw3", "sw4", "sw5", "mix", "grid"]
+
+
+def cfg_replay(exe, edges, jobs=14, timeout=900):
+    """Replay histories of module SolverCfg: the object holding the lineage is compared, getter by getter and by a fixed
+    Evolve, with a twin configured from the specification's record by plain setters and never moved.
+    Returns (list of (edge index, what, detail), fails)."""
+    import concurrent.futures
+    chunks = [[] for _ in range(jobs)]
+    for i, e in enumerate(edges):
+        chunks[i % jobs].append((i, e))
+
+    def script(i, e):
+        c = ["NEW 1 2 2 1 1 2"]
+        alive = {1}
+        if e["decoy"]:
+            c += ["NEW 2 2 2 1 1 8", "SW 2 1 1", "EVOLVEN 2 4"]
+            for f in CFG_FIELDS:
+                c.append("CFG 2 %s %d" % (f, 0 if f in ("adaptive", "sw2", "sw3", "sw4", "sw5") else 1 if f == "sw1" else 9))
+            alive.add(2)
+        cur = 1
+        for kind, f, val in e["hist"]:
+            if kind == "set":
+                c.append("CFG %d %s %d" % (cur, f, val))
+            else:
+                c.append("%s %d %d" % ("MOVECTOR" if kind == "movector" else "MOVEASSIGN", 3 - cur, cur))
+                cur = 3 - cur; alive.add(cur)
+        c += ["GETCFG %d" % cur, "NEW 3 2 2 1 1 2"]
+        for f in CFG_FIELDS:
+            c.append("CFG 3 %s %d" % (f, e["cfg"][f]))
+        c += ["GETCFG 3", "EVOLVEN %d 4" % cur, "EVOLVEN 3 4", "DUMP %d L%d" % (cur, i), "DUMP 3 T%d" % i]
+        c += ["DESTROY %d" % o for o in sorted(alive | {3})]
+        return c
+
+    def work(chunk):
+        cmds = ["QUIET 1"]
+        for i, e in chunk:
+            cmds += script(i, e)
+        rc, lines, err = run_script(exe, cmds, timeout=timeout)
+        return rc, lines, err, chunk
+    out = []; fails = []
+    with concurrent.futures.ThreadPoolExecutor(max_workers=jobs) as ex:
+        for rc, lines, err, chunk in ex.map(work, [c for c in chunks if c]):
+            if died(rc):
+                fails.append("CRASH: solver_drive rc=%s while replaying configuration histories: %s" % (rc, err[-500:]))
+                continue
+            if rc != 0 or any('"e":"Exception"' in l for l in lines):
+                fails.append("solver_drive rc=%s %s %s" % (rc, [l for l in lines if "Exception" in l][:1], err[-300:]))
+                continue
+            dumps = {tag: (t, vals) for tag, t, vals in parse_dumps(lines)}
+            seq = [l.split() for l in lines if l.startswith("GETCFG ") or l.startswith("EVOLVEN ")]
+            pos = 0
+            for i, e in chunk:
+                if e["decoy"]:
+                    pos += 1                      # the decoy's own Evolve
+                if pos + 4 > len(seq) or seq[pos][0] != "GETCFG" or seq[pos + 1][0] != "GETCFG" or seq[pos + 2][0] != "EVOLVEN" or seq[pos + 3][0] != "EVOLVEN":
+                    fails.append("configuration replay out of step at history %d" % i); break
+                gl, gt, el, et = seq[pos][1:], seq[pos + 1][1:], seq[pos + 2][1:], seq[pos + 3][1:]
+                pos += 4
+                names = ["Get_h", "Get_h_min", "Get_h_max", "Get_rel_error", "Get_abs_error", "Get_NumSteps", "Get_nx", "Get_nrhos", "Get_nscalars", "Get_t", "Get_t_initial", "mixing angle"]
+                for k, (a, b) in enumerate(zip(gl, gt)):
+                    if a != b:
+                        out.append((i, "getter/" + (names[k] if k < len(names) else "Get_xrange"), "%s: moved/configured object %s, twin built from the record %s" % (names[k] if k < len(names) else "x[%d]" % (k - len(names)), a, b)))
+                        break
+                else:
+                    if len(gl) != len(gt):
+                        out.append((i, "getter/Get_xrange", "grid sizes %d vs %d" % (len(gl), len(gt))))
+                if el[0] != et[0] or el[1] != et[1]:
+                    out.append((i, "evolve/right-hand-sides", "a fixed Evolve made %s right-hand sides (refused=%s) on the object, %s (refused=%s) on the twin: a field without a getter (stepper, adaptive flag, switches) differs" % (el[1], el[0], et[1], et[0])))
+                elif el[2] != et[2]:
+                    out.append((i, "evolve/clock", "Get_t after Evolve %s vs twin %s" % (el[2], et[2])))
+                else:
+                    (t1, v1), (t2, v2) = dumps.get("L%d" % i, (None, [])), dumps.get("T%d" % i, (None, []))
+                    sc = max([1.0] + [abs(x) for x in v2])
+                    if len(v1) != len(v2) or any(not (abs(a - b) <= 1e-12 * sc) for a, b in zip(v1, v2)):
+                        out.append((i, "evolve/state", "state after a fixed Evolve differs from the twin's by %.3g" % max([abs(a - b) for a, b in zip(v1, v2)] or [float("inf")])))
+    return out, fails
